@@ -127,11 +127,11 @@ func loadEngine(pkgDirs []string, opts Options) (*Engine, error) {
 	for _, p := range prog.AllPackages() {
 		e.pkgs[p.Pkg.Path()] = p
 	}
-	for _, ip := range initial {
-		if sp := prog.Package(ip.Types); sp != nil {
-			sp.Build()
-		}
-	}
+	// build every package up front: lazy Package.Build() from concurrently running harness
+	// workers would let one worker read half-built function bodies of another's build
+	tb := time.Now()
+	prog.Build()
+	e.buildSeconds = time.Since(tb).Seconds()
 	e.setupRedirects()
 	e.loadSeconds = time.Since(t0).Seconds()
 	return e, nil
